@@ -83,13 +83,13 @@ def charmap (cp : UInt8 → Nat) : Decoder Bytes :=
 
 def latin1 : Decoder Bytes := charmap fun b => b.toNat
 
-/-- windows-1252 code points of 0x80..0x9F (WHATWG index, as in x/text: the five undefined
-bytes map to the C1 controls). -/
+/-- windows-1252 code points of 0x80..0x9F as x/text's `charmap.Windows1252` decodes them:
+the five bytes the code page leaves undefined (81 8D 8F 90 9D) become U+FFFD. -/
 def w1252High : List Nat :=
-  [0x20AC, 0x0081, 0x201A, 0x0192, 0x201E, 0x2026, 0x2020, 0x2021,
-   0x02C6, 0x2030, 0x0160, 0x2039, 0x0152, 0x008D, 0x017D, 0x008F,
-   0x0090, 0x2018, 0x2019, 0x201C, 0x201D, 0x2022, 0x2013, 0x2014,
-   0x02DC, 0x2122, 0x0161, 0x203A, 0x0153, 0x009D, 0x017E, 0x0178]
+  [0x20AC, 0xFFFD, 0x201A, 0x0192, 0x201E, 0x2026, 0x2020, 0x2021,
+   0x02C6, 0x2030, 0x0160, 0x2039, 0x0152, 0xFFFD, 0x017D, 0xFFFD,
+   0xFFFD, 0x2018, 0x2019, 0x201C, 0x201D, 0x2022, 0x2013, 0x2014,
+   0x02DC, 0x2122, 0x0161, 0x203A, 0x0153, 0xFFFD, 0x017E, 0x0178]
 
 def w1252cp (b : UInt8) : Nat :=
   if 0x80 ≤ b.toNat ∧ b.toNat < 0xA0 then
